@@ -5,7 +5,7 @@
 Require Import Calc.Sem.
 Require Import Calc.Base Calc.Bytecode Calc.Value Calc.FloatText Calc.Ast Calc.Resolve Calc.Compile Calc.VM
         Calc.Session Calc.CorrSession Calc.CompileWf
-        Calc.ExprSem Calc.ExprAssign Calc.ExprLen Calc.ExprSession Calc.LExprSem Calc.StmtSem.
+        Calc.ExprSem Calc.ExprAssign Calc.ExprLen Calc.ExprSession Calc.LExprSem Calc.StmtSem Calc.StmtRel Calc.StmtDef Calc.StmtMixed.
 Open Scope Z_scope.
 
 (* the premises of C01_statement_sessions_partial for one parsed tree *)
@@ -116,7 +116,45 @@ Fixpoint count_fragment (trees : list node) (intact : bool) (funs : list (string
       ((if ok then 1 else 0) + count_fragment r (intact && negb (rebinds_builtin t)) funs2)%nat
   end.
 
-(* 100000 * (trees inside the fragment) + (all trees) *)
+(* ---- the premises of C01_sessions_sem_vs_vm_partial (agree_session) on one session ---- *)
+(* FN: the built-ins that are not leaves, and every name the session gives a function by a qualifying definition *)
+Definition session_names (trees : list node) : list string :=
+  ["exit"; "fromto"; "indices"; "elems"]%string ++
+  flat_map (fun t => match lambda_def t with Some f => [fst f] | None => [] end) trees.
+
+(* item_ok2 FN for one tree (plus: every callee is known, so that the statement semantics gives the calls a meaning) *)
+Definition tree_ok2 (FN : list string) (funs : list (string * nat)) (t : node) : bool :=
+  match lambda_def t with
+  | Some _ => match strewrite t with
+              | Some (NAssign _ (NFunction _ body _)) => nobe (BS FN) body
+              | _ => false
+              end
+  | None =>
+      in_fragment t &&
+      match strewrite t with
+      | Some t' => forallb (fun c => builtin_call_ok c || existsb (fun f => String.eqb (fst c) (fst f)) funs) (callees t') &&
+                   nobs (BS FN) t'
+      | None => false
+      end
+  end.
+
+(* the length of the longest prefix of the session all of whose trees meet the premises: up to there the
+   session theorem applies from the start of the session *)
+Fixpoint prefix_ok (FN : list string) (trees : list node) (funs : list (string * nat)) : nat :=
+  match trees with
+  | [] => 0
+  | t :: r =>
+      if tree_ok2 FN funs t then
+        let bound := binds t in
+        let funs1 := filter (fun f => negb (existsb (String.eqb (fst f)) bound)) funs in
+        let funs2 := match lambda_def t with Some f => f :: funs1 | None => funs1 end in
+        S (prefix_ok FN r funs2)
+      else 0
+  end.
+
+(* 10^10 * (trees in the prefix covered by the Sem-vs-VM session theorem)
+   + 100000 * (trees that meet the premises of the compiled-side theorem) + (all trees) *)
 Definition chk_fragment (l : list ginput) : Z :=
   let trees := List.concat (map g_trees l) in
+  10000000000 * Z.of_nat (prefix_ok (session_names trees) trees []) +
   100000 * Z.of_nat (count_fragment trees true []) + Z.of_nat (List.length trees).
